@@ -219,6 +219,16 @@ func runC03(c *Ctx) {
 		}
 	}
 
+	// ---- R7: a replayed handshake stays rejected for as long as its hour stamp is acceptable
+	ob7 := c.Obl("R7", "replay-window", "the replay filter remembers a handshake at least as long as its hour stamp stays MAC-valid ((max offset - min offset + 1) hours): otherwise a replay within the window is answered")
+	if offs, ttl, why := replayWindow(p); why != "" {
+		ob7.Undecide("%s", why)
+	} else if need := (offs[len(offs)-1] - offs[0] + 1) * 3600 * 1e9; ttl < need {
+		ob7.Violate("filter TTL %d ns < validity window %d ns (offsets %v)", ttl, need, offs)
+	} else {
+		ob7.Hold("TTL %d ns >= window %d ns (offsets %v)", ttl, need, offs)
+	}
+
 	// ---- R6: handshake deadline armed before first read
 	for _, h := range hcalls {
 		if sc := h.Common().StaticCallee(); sc != nil {
